@@ -183,4 +183,80 @@ theorem post_core_exec (r : Recon) (nk : Key) (pct : Bool) (s s' : Store K) (k m
         refine ⟨_, by simp [Store.set_apply]; rfl, by simp [Store.set_apply], by simp [Store.set_apply],
           by simp [Store.set_apply], by simp [Store.set_apply, hm1], by simp [Store.set_apply, hsm1]⟩
 
+/-! ## the builder pair, split at the core -/
+
+def ppPrefix (c : Config) : List Stage :=
+  buildPre c ++ (opt c.estimateSmaps [.estimateSensitivityMap .kspace c.smapType c.smapGaussian]
+    ++ opt c.deleteAcsMask [.deleteKeys [.acsMask]])
+
+def ppCore (c : Config) : List Stage :=
+  [.computeImage .kspace .target c.recon, .applyMask .samplingMask .kspace .maskedKspace,
+   .computeScalingFactor c.scalingKey c.percentile .scalingFactor, .normalize .scalingFactor defaultNormKeys]
+
+theorem buildPrePost_split (c : Config) :
+    buildPrePost c = ppPrefix c ++ (ppCore c ++ opt c.deleteKspace [.deleteKeys [.kspace]]) := by
+  simp [buildPrePost, buildPost, ppPrefix, ppCore, List.append_assoc]
+
+/-- **pre ++ post, every valid configuration**: the outputs in terms of the fully sampled pre-processed k-space
+`kfull` (what reached `ComputeImage` / `ApplyMask`), the sampling mask and the reported scaling factor.  The
+target is the reconstruction of the *un-normalised* k-space, divided by the scaling factor afterwards. -/
+theorem prepost_final (c : Config) (hv : c.validPP = true) (x : Val K) (out : Store K)
+    (h : run S X m (buildPrePost c) x = .ok out) :
+    ∃ kfull mask sf, out .samplingMask = some mask ∧ out .scalingFactor = some sf
+      ∧ out .maskedKspace = some (evalOp S X m .safeDiv [sf, evalOp S X m .applyMask [mask, kfull]])
+      ∧ out .target = some (evalOp S X m .safeDiv [sf, reconVal S X m c.recon kfull ((out .sensitivityMap).getD Val.empty)])
+      ∧ (out .kspace = some (evalOp S X m .safeDiv [sf, kfull]) ∨ (c.deleteKspace = true ∧ out .kspace = none)) := by
+  have hsk : ∃ nk, c.scalingKey = .key nk ∧ (nk = .kspace ∨ nk = .maskedKspace) := by
+    simp only [Config.validPP, Bool.and_eq_true, Bool.or_eq_true, beq_iff_eq] at hv
+    rcases hv.1.1.2 with h | h
+    · exact ⟨_, h, Or.inr rfl⟩
+    · exact ⟨_, h, Or.inl rfl⟩
+  obtain ⟨nk, hnk, hnk'⟩ := hsk
+  unfold run at h
+  rw [buildPrePost_split, program_append, exec_append] at h
+  cases h0 : exec S X m (program (ppPrefix c)) (fun k => if k = .kspace then some x else none) with
+  | error e => simp [h0] at h
+  | ok s0 =>
+    simp only [h0] at h
+    rw [program_append, exec_append] at h
+    cases h1 : exec S X m (program (ppCore c)) s0 with
+    | error e => simp [h1] at h
+    | ok s1 =>
+      simp only [h1] at h
+      cases hk : s0 .kspace with
+      | none => cases hr : c.recon <;> simp [ppCore, program, compile, exec, execInstr, getAll, hk, hr] at h1
+      | some kfull =>
+        cases hm : s0 .samplingMask with
+        | none =>
+          exfalso
+          have hsplit : program (ppCore c) = compile (.computeImage .kspace .target c.recon)
+              ++ program [.applyMask .samplingMask .kspace .maskedKspace,
+                          .computeScalingFactor c.scalingKey c.percentile .scalingFactor,
+                          .normalize .scalingFactor defaultNormKeys] := by simp [ppCore, program]
+          rw [hsplit, exec_append] at h1
+          cases h2 : exec S X m (compile (.computeImage .kspace .target c.recon)) s0 with
+          | error e => simp [h2] at h1
+          | ok s2 =>
+            simp only [h2] at h1
+            obtain ⟨_, b2⟩ := computeImage_exec S X m c.recon s0 s2 kfull hk h2
+            have hm2 : s2 .samplingMask = none := by rw [b2 _ (by decide) (by decide), hm]
+            have hk2 : s2 .kspace = some kfull := by rw [b2 _ (by decide) (by decide), hk]
+            simp [program, compile, exec, execInstr, hk2, hm2] at h1
+        | some mask =>
+          simp only [ppCore, hnk] at h1
+          obtain ⟨sf, a1, a2, a3, a4, a5, a6⟩ := post_core_exec S X m c.recon nk c.percentile s0 s1 kfull mask hk hm hnk' h1
+          cases hdk : c.deleteKspace
+          · simp [hdk, opt, program, exec] at h
+            subst h
+            exact ⟨kfull, mask, sf, a5, a1, a3, by rw [a4, a6], Or.inl a2⟩
+          · simp [hdk, opt, program, compile, exec, execInstr] at h
+            subst h
+            refine ⟨kfull, mask, sf, ?_, ?_, ?_, ?_, Or.inr ⟨rfl, by simp [Store.set_apply]⟩⟩
+            · simpa [Store.set_apply] using a5
+            · simpa [Store.set_apply] using a1
+            · simpa [Store.set_apply] using a3
+            · simp only [Store.set_apply]
+              simp only [show (Key.target = Key.kspace) = False by simp, show (Key.sensitivityMap = Key.kspace) = False by simp, if_false]
+              rw [a4, a6]
+
 end DirectVerif.Pipeline
